@@ -223,6 +223,8 @@ class FieldCodeGenerator:
             expression = self._name
             if self._array_field:
                 expression = f'tuple({expression})'
+                if self._optional:
+                    expression = f'None if {self._name} is None else {expression}'
         elif isinstance(field_type, StringType):
             expression = f'"{self._hardcoded_value}"'
         elif isinstance(field_type, BoolType):
